@@ -4,3 +4,4 @@ pub mod ints;
 pub mod vdafkit;
 pub mod flpexh;
 pub mod prio3spec;
+pub mod p3cases;
